@@ -132,6 +132,9 @@ def describe_place(f, p):
     return s
 
 
+LEGACY_TMP = False  # migration aid only
+
+
 def describe_operand(f, op, depth=6):
     r = f.root_of(op)
     if r[0] == "const":
@@ -142,7 +145,16 @@ def describe_operand(f, op, depth=6):
             return repr(c["s"])
         return c.get("text", "const")
     if r[0] == "place":
-        return describe_place(f, r[1])
+        pl = r[1]
+        # `(a - b).0` of an overflow-checked operation: describe the operation
+        if not LEGACY_TMP and depth > 0 and len(pl["p"]) == 1 and isinstance(pl["p"][0], dict) and pl["p"][0].get("name") in ("0", 0) \
+                and not f.local_name(pl["l"]):
+            d = f.single_def(pl["l"])
+            if d is not None and d[1] != "term" and d[2]["rv"]["k"] == "binop" and d[2]["rv"]["op"].endswith("WithOverflow"):
+                rv = d[2]["rv"]
+                return "%s(%s,%s)" % (rv["op"][:-len("WithOverflow")], describe_operand(f, rv["a"], depth - 1),
+                                      describe_operand(f, rv["b"], depth - 1))
+        return describe_place(f, pl)
     if r[0] == "call":
         t = r[2]
         name = M.callee_name(t) or "indirect"
@@ -163,6 +175,29 @@ def describe_operand(f, op, depth=6):
             return "discr(%s)" % describe_place(f, rv["place"])
         return rv["k"]
     return "?"
+
+
+def describe_index(f, op):
+    """`a..b`, `..b`, `a..`, `a..=b` for range aggregates, else the operand's description."""
+    r = f.root_of(op, through_named=True)
+    if r[0] == "rv" and r[3]["rv"]["k"] == "agg" and str(r[3]["rv"].get("adt", "")).startswith("std::ops::Range"):
+        rv = r[3]["rv"]
+        ds = [describe_operand(f, o, 4) for o in rv["ops"]]
+        v = rv.get("variant")
+        if v == "Range" and len(ds) == 2:
+            return "%s..%s" % (ds[0], ds[1])
+        if v == "RangeTo" and ds:
+            return "..%s" % ds[0]
+        if v == "RangeFrom" and ds:
+            return "%s.." % ds[0]
+        if v == "RangeInclusive" and len(ds) >= 2:
+            return "%s..=%s" % (ds[0], ds[1])
+        if v == "RangeToInclusive" and ds:
+            return "..=%s" % ds[0]
+        if v == "RangeFull":
+            return ".."
+        return v or "range"
+    return describe_operand(f, op, 4)
 
 
 def sites_of(f):
@@ -206,6 +241,8 @@ def sites_of(f):
                     detail = _fmt_message(f, t)
             else:
                 detail = describe_operand(f, t["args"][0]) if t["args"] else ""
+                if k in ("str::index", "slice::index", "Vec::index", "String::edit", "other::index") and len(t["args"]) >= 2:
+                    detail = "%s[%s]" % (detail, describe_index(f, t["args"][1]))
             out.append(Site(f, bi, "call:" + k, detail, t["span"], t))
     return out
 
